@@ -116,8 +116,10 @@ P('C17', ['applyLogEntries', 'doApplyCommand', 'loadDumpFile', 'setCodeVersion']
   'VERSION entry semantics (O17.3), stop-at-unsupported-version in the apply loop (O17.5), request validation (O17.4) and name table '
   'rebuilt for the restored version after a dump load (O17.6), as contracts on the real functions.',
   'Method-id enumeration and the name-table construction use reflection (dir/getattr, X4): they are checked by a bounded native '
-  'stand-in (labelled bounded) where built, not proved.',
-  assumptions=['X4: reflection abstracted'])
+  'stand-in (bounded/c17_reflection.py, labelled bounded in the evidence and not counted among the proof obligations), not proved.',
+  assumptions=['X4: reflection abstracted'], lemmas=['B-REFLECT'],
+  bounded=['O17.1/O17.2/O17.7 (id enumeration in __init__, name table in __onSetCodeVersion, dispatch through the wrapper): exhaustive native '
+           'enumeration over 160 generated old/new class pairs (<=2 object methods + 1 consumer method, versions in {0,1,2,3}), bounded, not proved'])
 
 P('C18', ['tick.election', 'msg.request_vote', 'msg.response_vote', 'tick.leader', 'hasQuorum', 'checkCommandsToApply', 'doChangeCluster'],
   'A node without own address never becomes candidate, never answers a vote request and stays FOLLOWER (O18.1); commit, fallback and '
@@ -180,6 +182,30 @@ LEMMAS['FRAME-C04'] = _lemma_frame('C04', {
 LEMMAS['FRAME-C20'] = _lemma_frame('C20', {
     '__lastResponseTime': ['__init__', '__onMessageReceived', '__onBecomeLeader', '__doChangeCluster'],
 })
+
+
+def _bounded_reflection():
+    """bounded native stand-in for the reflection (X4): enumeration over generated classes, run on the real code"""
+    import json
+    import os
+    import subprocess
+    import time
+    here = os.path.dirname(os.path.dirname(os.path.abspath(__file__)))
+    env = dict(os.environ)
+    env['PYTHONPATH'] = os.environ.get('PYVC_REPO', '/repo')
+    t0 = time.time()
+    p = subprocess.run(['/venv/bin/python', os.path.join(here, 'bounded', 'c17_reflection.py')], stdout=subprocess.PIPE, stderr=subprocess.PIPE, env=env, timeout=600)
+    txt = p.stdout.decode('utf-8', 'replace').strip().split('\n')[-1] if p.stdout else ''
+    try:
+        info = json.loads(txt)
+    except Exception:
+        info = {'error': (p.stderr.decode('utf-8', 'replace')[-400:])}
+    st = 'discharged' if p.returncode == 0 else ('failed' if p.returncode == 1 else 'unknown')
+    return [dict(id='C17:BOUNDED.O17.1-O17.2-O17.7.reflection-enumeration', unit='bounded.c17_reflection', path='exhaustive over %s generated class pairs' % info.get('cases'),
+                 status=st, solver='cpython-enumeration(bounded)', secs=time.time() - t0, model=info, info=json.dumps(info)[:300], line=None, bounded=True)]
+
+
+LEMMAS['B-REFLECT'] = _bounded_reflection
 
 
 def _lemma_elect():
